@@ -3,11 +3,13 @@
 records what was run (phase 1: baseline + demonstration in a scratch worktree; phase 2: all quick checks on /repo)."""
 import json, os, shutil, sys
 out_root = '/verif/seeded'
+src_root = sys.argv[1] if len(sys.argv) > 1 else '/tmp/seedout'
+offset = int(sys.argv[2]) if len(sys.argv) > 2 else 0
 os.makedirs(out_root, exist_ok=True)
 rows = []
 for pid in ["C%02d" % i for i in range(1, 19)]:
     for k in (1, 2):
-        src = '/tmp/seedout/%s' % pid
+        src = '%s/%s' % (src_root, pid)
         p1 = '%s/res%d/phase1.json' % (src, k)
         p2 = '%s/res%d/phase2.json' % (src, k)
         if not (os.path.exists(p1) and os.path.exists(p2) and os.path.exists('%s/patch%d.diff' % (src, k))):
@@ -17,7 +19,7 @@ for pid in ["C%02d" % i for i in range(1, 19)]:
         if not ok:
             print("NOT KEPT %s/%d: %s" % (pid, k, ph1)); continue
         meta_a = json.load(open('%s/meta%d.json' % (src, k)))
-        d = '%s/%s-%d' % (out_root, pid, k)
+        d = '%s/%s-%d' % (out_root, pid, k + offset)
         os.makedirs(d, exist_ok=True)
         shutil.copy('%s/patch%d.diff' % (src, k), d + '/patch.diff')
         shutil.copy('%s/demo%d.rs' % (src, k), d + '/demo.rs')
@@ -28,7 +30,7 @@ for pid in ["C%02d" % i for i in range(1, 19)]:
             "summary": meta_a.get("summary"),
             "needs": meta_a.get("needs"),
             "files": meta_a.get("files"),
-            "source": "fresh sub-agent given only the property text and its own scratch worktree of /repo",
+            "source": "fresh sub-agent given only the property text and its own scratch worktree of /repo" + (" (second round: also told the one-line summaries of the two earlier changes for this property, to avoid repeats)" if offset else ""),
             "confirmed": {
                 "ran": [
                     "scratch worktree of /repo HEAD: git apply patch.diff; cargo test --workspace --no-fail-fast --offline  -> %d passed, %d failed" % (ph1['baseline_passed'], ph1['baseline_failed']),
@@ -43,6 +45,11 @@ for pid in ["C%02d" % i for i in range(1, 19)]:
         }
         json.dump(meta, open(d + '/meta.json', 'w'), indent=1)
         rows.append((pid, k, meta_a.get("summary", "")[:110], detected))
-json.dump([{"seed": "%s-%d" % (p, k), "summary": s, "detected_by": d} for p, k, s, d in rows], open(out_root + '/index.json', 'w'), indent=1)
+import glob
+idx = []
+for dd in sorted(glob.glob(out_root + '/C*-*/')):
+    m = json.load(open(dd + 'meta.json'))
+    idx.append({"seed": os.path.basename(dd.rstrip('/')), "summary": m["summary"], "detected_by": m["confirmed"]["detected_by_quick_checks"]})
+json.dump(idx, open(out_root + '/index.json', 'w'), indent=1)
 for p, k, s, d in rows:
     print("%s-%d  detected by %s" % (p, k, ",".join(d) or "NONE"))
